@@ -317,11 +317,39 @@ CHECKS['C13'] = dict(
                  'size() is not issued concurrently (unlocked read by design, not in the statement); it is read at quiescence',
                  'sequential models in h_conc.c; gcc 12 libtsan'])
 
+
+CHECKS['C16'] = dict(
+    title='encoders/decoders exact inverses, standard formats', level='exploration',
+    jobs=lambda tier, seed: [Job('h_codec', 'plain', args=(['--exhaustive-len', '3', '--random', '60000', '--queries', '200000'] if tier == 'thorough'
+                                                         else ['--exhaustive-len', '2', '--random', '20000', '--queries', '20000']))],
+    rule='evaluation = one byte string taken through URL, Base64 and hex: encode, format predicate (URL: only printable ASCII outside % + & = ? # " < > literally, every literal equal to the input byte, every other byte as %hh of that byte; '
+         'Base64 equal to an independent RFC 4648 encoder; hex two lowercase digits per byte), decode(encode(x)) == x with exact length, decoder leniency (upper-case hex, + for space); or one query list of 0-12 pairs over bytes 1-255 '
+         '(empty names/values included, separators & or ; and =) assembled from encoded parts and parsed back, compared in chain order. Exhaustive over all byte strings of length 0..2 (quick) / 0..3 (thorough); random lengths to 4096. '
+         'distinct = distinct input strings (lengths <= 2 and random) + query lists.',
+    exhaustive=lambda res, tier: False,
+    require=['exhaustive_strings', 'random_strings', 'query_lists', 'url_strings', 'base64_strings', 'hex_strings'],
+    assumptions=['reference Base64 encoder in h_codec.c, self-tested against the RFC 4648 section 10 vectors at start-up'])
+
+
+CHECKS['C18'] = dict(
+    title='hash functions equal their published algorithms', level='exploration',
+    jobs=lambda tier, seed: [Job('h_hash', 'asan', extra_srcs=REFS_HASH, args=(['--seeds', '20', '--big', '512'] if tier == 'thorough' else ['--seeds', '1', '--big', '64']))],
+    rule='evaluation = one (length, alignment, content class) cell: the bytes are placed so that they end exactly at the end of their heap block with the slack in front ASan-poisoned, hashed with qhashmd5, qhashmurmur3_32, '
+         'qhashmurmur3_128, qhashfnv1_32, qhashfnv1_64 (result buffers at arbitrary alignment) and compared with independent byte-wise references; then hashed again at another address/alignment with different bytes behind the buffer (results must agree). '
+         'Cell grid: every length 1..600 x 8 alignments x {random, all-zero, all-0xff, embedded NULs, high-bit}, complete in every run; plus random sizes up to 1 MiB and qhashmd5_file over files of 0/1/32767/32768/32769/102400 bytes with whole/to-end/inner/out-of-range (offset, length) requests. '
+         'distinct = distinct cells + file requests.',
+    exhaustive=True,
+    require=['cells', 'large_sizes', 'file_ranges_in_range', 'file_ranges_out_of_range'],
+    assumptions=['references in refs/ref_hash.c written from RFC 1321 / MurmurHash3 / FNV-1 descriptions, validated at start-up against published vectors',
+                 'gcc 12 ASan/UBSan; x86-64 little-endian output layout of the 128-bit Murmur result'])
+
 # --------------------------------------------------------------------------- manifest texts
 NOT_APPLICABLE = {}
 DESIGN_REF = {}
 LEVEL_NOTE = {}
 TECHNIQUE = {
+    'C18': 'differential oracle against independent reference hashes over a complete (length, alignment, content class) grid + address/tail independence under ASan with exact-end buffers',
+    'C16': 'round-trip + format-predicate oracles with an independent RFC 4648 reference, exhaustive over all byte strings up to length 2/3 + random',
     'C13': 'schedule injection (DFS/random over lock/allocator scheduling points) + Wing-Gong linearizability checking of recorded histories; stress with injected delays + conservation checkers; ThreadSanitizer',
     'C15': 'allocator failpoints (k-th allocation of the call, single / all-subsequent) + before/after model equality + invariant walkers + ledger under ASan',
     'C14': 'lock-depth monitor in trylock/unlock interposers + probe-thread trylock, enumerated over functions x outcome classes x allocation-failure index',
@@ -339,6 +367,8 @@ TECHNIQUE = {
     'C04': 'reference-model floor oracle + continuation multiset audit; CPU watchdog',
 }
 LEVEL_TEXT = {
+    'C18': 'Every function is compared with an independent reference on the complete grid of lengths 1..600 x 8 alignments x 5 content classes (and large sizes, file ranges), at two placements with different trailing bytes, under ASan with buffers ending at the allocation end.',
+    'C16': 'Every byte string up to length 2 (3 in the thorough tier, 16.8 M strings) and random strings up to 4 KiB are encoded, format-checked against the stated predicates / an independent RFC 4648 encoder, decoded and compared; query lists are assembled and parsed back.',
     'C13': 'Real pthreads run small client programs under enumerated or sampled schedules at lock/allocator granularity; each recorded history is checked for linearizability against a sequential model; truly concurrent stress histories are checked by per-key linearizability / conservation rules and by ThreadSanitizer.',
     'C15': 'Fault enumeration: every allocating operation is executed from every state of a corpus with each of its allocations failing in turn; the reference model, structural walkers, a follow-up battery, the allocation ledger and ASan decide.',
     'C14': 'Fault enumeration: each public function of each lockable container is executed for each outcome class it can produce and with each of its allocations failing in turn; the lock depth seen by the interposed pthread primitives must be balanced and a second thread must be able to take the lock.',
